@@ -934,7 +934,7 @@ impl fmt::Display for XmlCData {
 
 impl XmlCData {
     pub fn node(value: &str, parent_id: Option<usize>, context: &Context) -> Rc<XmlItem> {
-        let data = value.to_string();
+        let data = normalize_eol(value);
 
         let cdata = node(XmlCData {
             data,
@@ -1164,7 +1164,7 @@ impl fmt::Display for XmlComment {
 
 impl XmlComment {
     pub fn node(comment: &str, parent_id: Option<usize>, context: &Context) -> Rc<XmlItem> {
-        let comment = comment.to_string();
+        let comment = normalize_eol(comment);
 
         let comment = node(XmlComment {
             comment,
@@ -2766,7 +2766,7 @@ impl XmlEntityValue {
                 parser::Reference::Character(v, n) => XmlEntityValue::Character(v.to_string(), *n),
                 parser::Reference::Entity(v) => XmlEntityValue::Entity(v.to_string()),
             },
-            parser::EntityValue::Text(v) => XmlEntityValue::Text(v.to_string()),
+            parser::EntityValue::Text(v) => XmlEntityValue::Text(normalize_eol(v)),
         }
     }
 }
@@ -3465,7 +3465,7 @@ impl XmlProcessingInstruction {
     ) -> Rc<XmlItem> {
         let target = value.target.to_string();
 
-        let content = value.value.map(|v| v.to_string());
+        let content = value.value.map(normalize_eol);
 
         let base_uri = String::new();
 
@@ -3567,7 +3567,7 @@ impl fmt::Display for XmlText {
 
 impl XmlText {
     pub fn node(value: &str, parent_id: Option<usize>, context: &Context) -> Rc<XmlItem> {
-        let text = value.to_string();
+        let text = normalize_eol(value);
 
         let text = node(XmlText {
             text,
@@ -4306,6 +4306,12 @@ fn char_from_char16(value: &str) -> error::Result<char> {
     let num = u32::from_str_radix(value, 16)
         .map_err(|_| error::Error::NotFoundReference(format!("#x{}", value)))?;
     char::from_u32(num).ok_or(error::Error::NotFoundReference(format!("#x{}", value)))
+}
+
+/// End-of-line handling (XML 1.0 2.11): the two-character sequence #xD #xA and any #xD that is
+/// not followed by #xA are passed on as a single #xA.
+fn normalize_eol(value: &str) -> String {
+    value.replace("\r\n", "\n").replace('\r', "\n")
 }
 
 fn delete_char_range<F>(value: &str, offset: usize, count: usize, check: F) -> error::Result<String>
